@@ -709,6 +709,9 @@ class Eval:
         'packed::ext::Pointer::distance': lambda a, b: a - b, 'packed::ext::Pointer::as_usize': lambda a: a,
         'core::num::trailing_zeros': lambda x: (x & -x).bit_length() - 1 if x else 64,
         'core::num::count_ones': lambda x: bin(x).count('1'),
+        'core::cmp::PartialEq::eq': lambda a, b: int(a == b), 'core::cmp::PartialEq::ne': lambda a, b: int(a != b),
+        'core::cmp::PartialOrd::lt': lambda a, b: int(a < b), 'core::cmp::PartialOrd::le': lambda a, b: int(a <= b),
+        'core::cmp::PartialOrd::gt': lambda a, b: int(a > b), 'core::cmp::PartialOrd::ge': lambda a, b: int(a >= b),
         # orderings are -1 / 0 / 1
         'core::cmp::Ord::cmp': lambda a, b: (a > b) - (a < b), 'core::cmp::Ordering::reverse': lambda o: -o,
         'core::cmp::PartialOrd::partial_cmp': lambda a, b: ('Some', (a > b) - (a < b)),
